@@ -210,17 +210,57 @@ def build_room_node(ctx, w, ev):
 
 
 def load_query_directions(ctx):
-    """{list name: 'asc'|'desc'|None} read from the LOAD_QUERY constant of the current tree"""
+    """{list name: dict(direction='asc'|'desc'|None, filters=[(field, literal)])} read from the LOAD_QUERY constant of the current tree.
+    Only order_by(mdate ..) and `field = literal` filters are understood; anything else makes the check inconclusive."""
     sc = ctx.index.simple_consts.get('LOAD_QUERY')
     if not sc:
         raise Inconclusive('LOAD_QUERY not found')
     from mirsym.interp import _unescape
+    from mirsym.mir import split_top, match_close
     text = _unescape(next(iter(sc))[1].strip('"')).decode()
     out = {}
     for name in ('admin', 'rights', 'users', 'user_admin'):
-        m = re.search(r'\b%s\s*\(([^)]*\))?' % name, text)
-        mm = re.search(r'\b%s\s*\(\s*order_by\s*\(\s*mdate\s*(asc|desc)?' % name, text)
-        out[name] = (mm.group(1) or 'asc') if mm else None
+        m = re.search(r'\b%s\s*(\(|\{)' % name, text)
+        if not m:
+            raise Inconclusive('LOAD_QUERY no longer selects the list %s' % name)
+        spec = dict(direction=None, filters=[])
+        if m.group(1) == '(':
+            j = match_close(text, m.end() - 1)
+            inner = text[m.end():j]
+            for tok in split_top(inner, ',', angle=False):
+                tok = tok.strip()
+                if not tok:
+                    continue
+                mo = re.fullmatch(r'order_by\s*\(\s*mdate\s*(asc|desc)?\s*\)', tok)
+                mf = re.fullmatch(r'(\w+)\s*=\s*(true|false|-?\d+|"[^"]*")', tok)
+                if mo:
+                    spec['direction'] = mo.group(1) or 'asc'
+                elif mf:
+                    spec['filters'].append((mf.group(1), mf.group(2)))
+                else:
+                    raise Inconclusive('LOAD_QUERY: parameter %r of list %s is not understood by the reload model' % (tok, name))
+        out[name] = spec
+    return out
+
+
+def filtered(ctx, entries, filters, kind):
+    """apply the `field = literal` filters of LOAD_QUERY to the entries (forks on symbolic flags)"""
+    out = []
+    for entry in entries:
+        keep = True
+        for fld, lit in filters:
+            if kind == 'user' and fld == 'enabled' and lit in ('true', 'false'):
+                cond = zb(entry[2]) if lit == 'true' else znot(zb(entry[2]))
+            elif kind == 'right' and fld in ('mutate_self', 'mutate_all') and lit in ('true', 'false'):
+                v = entry[2] if fld == 'mutate_self' else entry[3]
+                cond = zb(v) if lit == 'true' else znot(zb(v))
+            else:
+                raise Inconclusive('LOAD_QUERY filter %s = %s is not understood by the reload model' % (fld, lit))
+            if not ctx.branch(cond):
+                keep = False
+                break
+        if keep:
+            out.append(entry)
     return out
 
 
@@ -257,13 +297,13 @@ def reload_json(ctx, w, ev):
 
     def arr(items):
         return jv('arr', VecV([Cell(x) for x in items]))
-    admins = [user_obj(k, d, e, 'adm%d' % i) for i, (k, d, e) in enumerate(ordered(ctx, ev.admins, dirs['admin'], lambda t: t[1]))]
+    admins = [user_obj(k, d, e, 'adm%d' % i) for i, (k, d, e) in enumerate(ordered(ctx, filtered(ctx, ev.admins, dirs['admin']['filters'], 'user'), dirs['admin']['direction'], lambda t: t[1]))]
     auths = []
     for gi, ge in enumerate(ev.groups):
         rights = [jv('obj', {'mdate': Cell(jv('int', d)), 'entity': Cell(jv('str', en)), 'mutate_self': Cell(jv('bool', ms)), 'mutate_all': Cell(jv('bool', ma))})
-                  for (en, d, ms, ma) in ordered(ctx, ge.rights, dirs['rights'], lambda t: t[1])]
-        users = [user_obj(k, d, e, 'g%d_usr%d' % (gi, i)) for i, (k, d, e) in enumerate(ordered(ctx, ge.users, dirs['users'], lambda t: t[1]))]
-        uads = [user_obj(k, d, e, 'g%d_uad%d' % (gi, i)) for i, (k, d, e) in enumerate(ordered(ctx, ge.user_admins, dirs['user_admin'], lambda t: t[1]))]
+                  for (en, d, ms, ma) in ordered(ctx, filtered(ctx, ge.rights, dirs['rights']['filters'], 'right'), dirs['rights']['direction'], lambda t: t[1])]
+        users = [user_obj(k, d, e, 'g%d_usr%d' % (gi, i)) for i, (k, d, e) in enumerate(ordered(ctx, filtered(ctx, ge.users, dirs['users']['filters'], 'user'), dirs['users']['direction'], lambda t: t[1]))]
+        uads = [user_obj(k, d, e, 'g%d_uad%d' % (gi, i)) for i, (k, d, e) in enumerate(ordered(ctx, filtered(ctx, ge.user_admins, dirs['user_admin']['filters'], 'user'), dirs['user_admin']['direction'], lambda t: t[1]))]
         auths.append(jv('obj', {'id': Cell(jv('str', idstr(ge.id, 'g%d_idstr' % gi))), 'mdate': Cell(jv('int', w.i64('g%d_mdate' % gi))),
                                 'rights': Cell(arr(rights)), 'users': Cell(arr(users)), 'user_admin': Cell(arr(uads))}))
     room = jv('obj', {'id': Cell(jv('str', idstr(ev.id, 'room_idstr'))), 'mdate': Cell(jv('int', w.i64('room_mdate'))), 'room_id': Cell(jv('null')),
